@@ -929,7 +929,8 @@ func directed(newHist func(label string) *hist, finish func(*hist), vr variant) 
 			h.approve(3, V, x)
 			set(1, 100, 0)
 			h.confirm(4, V, x, pword(1))
-		case 6: // a password is switched on after the request
+		case 6: // a password is switched on after the request (a wrong password is refused before that as well)
+			h.confirm(5, V, x, "wrong-pw")
 			h.approve(2, V, x)
 			set(1, 100, 1)
 			h.approve(3, V, x)
